@@ -167,6 +167,9 @@ pub struct BadCcCase {
     pub cc: String,
     pub on_vfunc: bool,
     pub w: u64,
+    /// a second calling_convention attribute on the same function: (name, written before the first one, separate bracket)
+    #[serde(default)]
+    pub second: Option<(String, bool, bool)>,
 }
 pub struct UnknownNames;
 impl Prop for UnknownNames {
@@ -175,7 +178,7 @@ impl Prop for UnknownNames {
         "C16/unknown-names".into()
     }
     fn rule(&self) -> String {
-        "a function (impl or vftable) whose calling_convention names something that is not one of the seven supported spellings (near misses in case, padding, other ABIs); oracle: the build is an error. The seven correct spellings are included as controls and must be accepted".into()
+        "a function (impl or vftable) whose calling_convention names something that is not one of the seven supported spellings (near misses in case, padding, other ABIs), alone or next to a second calling_convention attribute before or after it, in the same or a separate bracket; oracle: the build is an error when any of the names is unknown. The seven correct spellings are included as controls and must be accepted".into()
     }
     fn gen(&self, t: &mut Tape) -> BadCcCase {
         let pool = [
@@ -186,10 +189,12 @@ impl Prop for UnknownNames {
             cc: t.pick(&pool).to_string(),
             on_vfunc: t.chance(1, 2),
             w: if t.chance(1, 2) { 8 } else { 4 },
+            second: if t.chance(1, 3) { Some((t.pick(&pool).to_string(), t.chance(1, 2), t.chance(1, 2))) } else { None },
         }
     }
     fn judge(&self, c: &BadCcCase) -> Outcome {
         let f = Func {
+            more: vec![],
             sty: 0,
             vis: true,
             name: "f".into(),
@@ -200,6 +205,13 @@ impl Prop for UnknownNames {
             index: None,
             cc: Some(c.cc.clone()),
         };
+        let mut f = f;
+        if let Some((name, before, separate)) = &c.second {
+            f.more.push(format!("{}calling_convention({:?})", if *before { "<" } else { "" }, name));
+            if *separate {
+                f.sty = 0x80;
+            }
+        }
         let mut td = TypeDef {
             vis: true,
             name: "T".into(),
@@ -217,12 +229,13 @@ impl Prop for UnknownNames {
         }
         m.items.push(Item::Type(td));
         let prog = Prog { mods: vec![m] };
-        let valid = crate::genprog::CCS.contains(&c.cc.as_str());
+        // every convention named on the function must be a known one, wherever it stands
+        let valid = crate::genprog::CCS.contains(&c.cc.as_str()) && c.second.as_ref().map(|(n, _, _)| crate::genprog::CCS.contains(&n.as_str())).unwrap_or(true);
         match (build_prog(&prog, c.w as usize), valid) {
             (Res::Panic(p), _) => Outcome::fail("panic", p),
             (Res::Ok(_), true) | (Res::Err(_), false) => Outcome::pass(true).class(if valid { "control-accepted" } else { "rejected" }),
-            (Res::Ok(_), false) => Outcome::fail("unknown-accepted", format!("calling_convention({:?}) was accepted", c.cc)),
-            (Res::Err(e), true) => Outcome::fail("known-rejected", format!("calling_convention({:?}) was rejected: {e}", c.cc)),
+            (Res::Ok(_), false) => Outcome::fail("unknown-accepted", format!("calling_convention({:?}) (second attribute: {:?}) was accepted", c.cc, c.second)),
+            (Res::Err(e), true) => Outcome::fail("known-rejected", format!("calling_convention({:?}) (second attribute: {:?}) was rejected: {e}", c.cc, c.second)),
         }
     }
 }
@@ -294,6 +307,6 @@ pub fn props() -> Vec<Box<dyn DynProp>> {
 pub fn run(ctx: &mut Ctx) {
     let q = ctx.quick();
     ctx.run(&Conventions, &Params::new(if q { 8_000 } else { 300_000 }, 100, 2500).shrink(300));
-    ctx.run(&UnknownNames, &Params::new(if q { 400 } else { 4_000 }, 4, 8));
+    ctx.run(&UnknownNames, &Params::new(if q { 3_000 } else { 30_000 }, 8, 16));
     ctx.run(&Restated, &Params::new(if q { 10_000 } else { 300_000 }, 30, 300));
 }
